@@ -322,9 +322,10 @@ pub struct ObjNative {
     pub(crate) name: Gc<ObjString>,
     pub function: NativeFn,
     pub(crate) manages_stack: bool,
-    /// Whether the function, called as a method, works on an instance of a class declared in the
-    /// language. The methods of the built-in classes other than Object read their receiver's
-    /// built-in representation, which such an instance - even of a class derived from theirs - lacks.
+    /// Whether the function, called as a method, works on any receiver. The instance methods of the
+    /// built-in classes other than Object read their receiver's built-in representation, which an
+    /// instance of a class declared in a program - even one derived from theirs - and a class
+    /// object (the receiver of `super.m()` in a static method) lack.
     pub(crate) accepts_instances: bool,
 }
 
